@@ -90,6 +90,9 @@ def main():
         for res in ex.map(lambda s: evaluate(s, tier), ids):
             results.append(res)
             print(json.dumps(res), flush=True)
+    # translator checks rewrite lean/PynguinModel/Generated/*.lean from the tree they run against: put the
+    # committed tables (generated from /repo itself) back after evaluating mutated trees
+    sh(["git", "-C", str(ROOT), "checkout", "--", "lean/PynguinModel/Generated"])
     out = ROOT / "seeded" / "RESULTS.json"
     old = {}
     if out.exists():
